@@ -1,6 +1,7 @@
 """C13 — type copies are independent and structural hashes match equality (engine TypeGraph)."""
 import json
 import os
+import time
 
 import vcheck
 from vcheck import Check, sh, VERIF
@@ -36,24 +37,59 @@ def run(tier, replay=None):
         cmd += ["-replay", replay]
     rc, out = sh(cmd, timeout=3000)
     if rc != 0:
-        raise RuntimeError("harness c13 failed: " + out[-3000:])
+        # the harness died inside the code under test (typically unbounded recursion in
+        # expr.Hash / expr.Dup): the property is not shown, no input could be recorded
+        m = [l for l in out.splitlines() if l.startswith(("fatal error", "panic:", "runtime: goroutine stack exceeds"))]
+        if not m:
+            raise RuntimeError("harness c13 failed: " + out[-3000:])
+        ck.coq_ok = ck.coq_ok if ck.coq_ok is not None else False
+        ck.unproved("the harness crashed inside the code under test: " + "; ".join(m[:3]),
+                    {"broken": "harness/cmd/c13 run", "detail": m[:5], "tail": out[-1500:]})
+        return ck.finish({"evaluations": 0, "distinct_nontrivial": 0, "rule": "harness crashed", "samples": [], "distribution": {}, "exhaustive": False},
+                         assumptions=["run aborted"], trusted_base=["harness/cmd/c13"])
     res = json.load(open(os.path.join(ck.work, "result.json")))
     for f in res["failures"]:
         ck.failure(f["signature"], f["what"], {"input": f["input"]})
+
+    # fresh processes: the same seed must give the same hashes in every process
+    nproc = 0
+    if not replay:
+        nproc = 8 if tier == "thorough" else 2
+        outs = []
+        for k in range(nproc):
+            dp = os.path.join(ck.work, "digest_%d.txt" % k)
+            rc, out = sh([binp, "-seed", str(ck.seed), "-digest", dp], timeout=600)
+            if rc != 0:
+                raise RuntimeError("harness c13 -digest failed: " + out[-2000:])
+            outs.append(open(dp).read().splitlines())
+        for k in range(1, nproc):
+            if outs[k] != outs[0]:
+                line = next((i for i, (a, b) in enumerate(zip(outs[0], outs[k])) if a != b), min(len(outs[0]), len(outs[k])))
+                ck.failure("hash-unstable/across-processes",
+                           "two processes computed different hashes for graph %d of the seed" % line,
+                           {"input": {"stream": "digest", "graph_number": line, "process_0": outs[0][line:line + 1], "process_%d" % k: outs[k][line:line + 1]}})
+                break
 
     mism = {}
     if ck.coq_ok:
         hdr = open(os.path.join(ck.work, "header.v")).read()
         streams = [
-            ("hash", "cases_hash.txt", "nat * env * ty * list obs", "hash_mismatches"),
-            ("equal", "cases_equal.txt", "nat * env * ty * env * ty * bool", "equal_mismatches"),
-            ("dup", "cases_dup.txt", "nat * dup_case", "dup_mismatches"),
+            ("graph", "cases_graph.txt", "gcase", "graph_mismatches"),
+            ("equal", "cases_equal.txt", "pcase", "equal_mismatches"),
         ]
         for name, fn, typ, fun in streams:
             lines = _lines(ck, fn)
             if not ck.coq_ok:
                 break
-            m = ck.coq_eval_cases(lines, hdr, typ, fun, tag=name, shards=(16 if len(lines) >= 64 else None))
+            m = None
+            for attempt in range(3):
+                m = ck.coq_eval_cases(lines, hdr, typ, fun, tag=name, shards=max(16, (len(lines) + 199) // 200) if len(lines) >= 64 else None)
+                if m is not None or "Error" in ck.coq_error:
+                    break
+                # a coqc process died without a Coq error (killed by the OOM killer on a loaded machine): run the stream again
+                ck.notes.append("stream %s: a coqc process was killed (%s); retried" % (name, ck.coq_error[:120].replace("\n", " ")))
+                ck.coq_ok, ck.coq_error = True, ""
+                time.sleep(10)
             if m is None:
                 break
             mism[name] = m
@@ -65,19 +101,19 @@ def run(tier, replay=None):
         total = sum(len(v) for v in mism.values())
         if total and not ck.violations:
             first = None
-            for name in ("hash", "equal", "dup"):
+            for name in ("graph", "equal"):
                 if mism.get(name):
                     first = {"stream": name, "case": mism[name][0], "input": _input_of(ck, name, mism[name][0])}
                     break
             ck.unproved(
-                "correspondence TypeGraph model vs expr/hasher.go, expr/types.go Equal, expr/dup.go broke on %d hash case(s), %d Equal case(s), %d copy case(s); "
-                "the property's own laws held on every case explored" % (len(mism.get("hash", [])), len(mism.get("equal", [])), len(mism.get("dup", []))),
+                "correspondence TypeGraph model vs expr/hasher.go, expr/types.go Equal, expr/dup.go broke on %d graph case(s) (hash strings, shape of the copy) and %d Equal case(s); "
+                "the property's own laws held on every case explored" % (len(mism.get("graph", [])), len(mism.get("equal", []))),
                 {"broken": "model output = observed (byte-exact hash strings under 8 flag vectors + Hash method; Equal; shape of Dup's result)",
                  "first_disagreeing_case": first,
                  "mismatching_case_indexes": {k: v[:50] for k, v in mism.items()}})
     cov = {"evaluations": res["evaluations"], "distinct_nontrivial": res["distinct_nontrivial"], "rule": res["rule"],
            "samples": res["samples"], "distribution": res["distribution"],
-           "correspondence_cases": res.get("extra", {}),
+           "correspondence_cases": res.get("extra", {}), "fresh_processes_compared": nproc,
            "model_mismatches": sum(len(v) for v in mism.values()) if ck.coq_ok else None,
            "exhaustive": False}
     return ck.finish(cov, assumptions=[
